@@ -569,7 +569,8 @@ func lookupSpecs() []lookupSpec {
 	return out
 }
 
-var nonRegisteredOnnxOps = []string{"Abs ", " Abs", "abs", "ABS", "", "Identity", "AveragePool", "MaxPool", "BatchNormalization", "Clip", "Dropout", "Elu", "Erf", "Exp", "Floor", "Ceil", "GlobalAveragePool", "HardSigmoid", "LeakyRelu", "Log", "Max", "Min",
+var nonRegisteredOnnxOps = []string{"onnx::Relu", "aten::Softmax", "mylib::Relu", "ai.onnx::Add", "a::b::Tanh", "::Relu", "Relu::", "ai.onnx.Relu", "ai.onnx/Relu", "com.example:Relu", "Relu.1", "Relu_13", "Relu-13", "opset13.Relu",
+	"Abs ", " Abs", "abs", "ABS", "", "Identity", "AveragePool", "MaxPool", "BatchNormalization", "Clip", "Dropout", "Elu", "Erf", "Exp", "Floor", "Ceil", "GlobalAveragePool", "HardSigmoid", "LeakyRelu", "Log", "Max", "Min",
 	"Mean", "Neg", "Pad", "Pow", "Reciprocal", "ReduceMean", "ReduceSum", "ReduceProd", "Resize", "Round", "Selu", "Sign", "Softplus", "Softsign", "Split", "Sqrt", "Sum", "Tile", "TopK", "Where", "ConvTranspose", "InstanceNormalization",
 	"LRN", "LpNormalization", "MatMulInteger", "NonZero", "OneHot", "Range", "ReduceL1", "ReduceL2", "ReduceLogSum", "ReduceSumSquare", "Scan", "Loop", "If", "ScatterND", "ScatterElements", "GatherND", "GatherElements", "Einsum", "CumSum",
 	"DepthToSpace", "SpaceToDepth", "Hardmax", "IsNaN", "IsInf", "Mod", "BitShift", "QuantizeLinear", "DequantizeLinear", "DynamicQuantizeLinear", "QLinearConv", "QLinearMatMul", "RoiAlign", "NonMaxSuppression", "StringNormalizer", "TfIdfVectorizer",
